@@ -308,6 +308,21 @@ class Check:
                         continue
                     seen.add(label)
                     tasks.append((j, pn, label))
+            # replaying is expensive (second cbmc run with a full trace): confirm at most 3 candidates per failing label and 24 in
+            # total; the rest are listed as 'not replayed' and count as violations only through their label-mates
+            per_label = {}
+            kept, skipped = [], []
+            for t in tasks:
+                n = per_label.get(t[2], 0)
+                if n < 3 and len(kept) < 24:
+                    kept.append(t); per_label[t[2]] = n + 1
+                else:
+                    skipped.append(t)
+            tasks = kept
+            for (j, pn, label) in skipped:
+                j.result.setdefault('not_replayed', []).append(label)
+            if skipped:
+                notes.append('%d further failing (query, assertion) pairs were not replayed (cap of 3 per assertion label / 24 per run); their labels: %s' % (len(skipped), sorted(set(t[2] for t in skipped))))
             import threading
             self.nlock = threading.Lock()
             self.nbuilt = {}
@@ -386,6 +401,8 @@ class Check:
                 q['counterexample_not_reproduced_natively'] = [list(x) for x in j.result['unconfirmed']]
             if j.result.get('known'):
                 q['known_finding'] = j.kfonly
+            if j.result.get('not_replayed'):
+                q['failing_not_replayed'] = j.result['not_replayed']
             queries.append(q)
         info = self.spec.INFO
         expl = ('Bounded symbolic execution of the real code: %s. Pipeline: clang++-14 (unoptimised IR) -> llvm-link -> opt (inline/sroa/instcombine/'
